@@ -1,6 +1,6 @@
 //verif:package github.com/kstenerud/go-concise-encoding/internal/verifh/c02
 //verif:config cap=300 steps=400000000 paths=20000 timeout=120000 maxsec=1800
-//verif:bounds whole-document CTE round trips through the real CTE encoder and the real CTE decoder (ANTLR lexer, parser and listener executed by the engine) behind the real rules validator: integers 0..255 (quick: 29 boundary values, positive at top level, negative as a map key; thorough: all values, both signs, 4 positions); strings of one symbolic character from a 24-character set (letters, digit, space, the characters that need escaping, a 2-byte and a 3-byte code point) whole and as map key; typed arrays uint8/int16 with one symbolic element (quick: the digit-count and sign boundaries); 10 structural templates with an 8-bit payload (quick: 12 boundary values) (nested containers, comments, markers and references, record types and records, nodes, edges, media, custom binary, UID, NaN, booleans, null, decimal and binary floats, dates, times and timestamps with UTC, UTC-offset and lat/long zones (area/location zones load the host's zone database and are not generated))
+//verif:bounds whole-document CTE round trips through the real CTE encoder and the real CTE decoder (ANTLR lexer, parser and listener executed by the engine) behind the real rules validator: integers 0..255 (quick: 29 boundary values, positive at top level, negative as a map key; thorough: all values, both signs, 4 positions); strings of one symbolic character from a 24-character set (letters, digit, space, the characters that need escaping, a 2-byte and a 3-byte code point) whole and as map key; typed arrays uint8/int16 with one symbolic element (quick: the digit-count and sign boundaries); 11 structural templates with an 8-bit payload (quick: 12 boundary values) (nested containers, comments, markers and references, record types and records, nodes, edges, media, custom binary, UID, NaN, booleans, null, decimal and binary floats, dates, times and timestamps with UTC, UTC-offset and lat/long zones (area/location zones load the host's zone database and are not generated))
 //verif:assume every symbolic character reaches the lexer's table lookups, where the engine enumerates its feasible values with the solver (one path per value): the bounds are small on purpose; equality of streams as in C01 (integers by value, arrays joined, comments keep their text, padding disappears)
 package c02
 
@@ -212,7 +212,7 @@ func Verif_C02_TypedArrays() {
 }
 
 func Verif_C02_Structures() {
-	which := verifrt.Choice("which", 10)
+	which := verifrt.Choice("which", 11)
 	v := uint64(verifrt.U8("v"))
 	if !verifrt.Thorough() {
 		verifrt.Assume(v < 4 || v >= 252 || v == 9 || v == 10 || v == 99 || v == 100) // quick: boundaries
@@ -305,6 +305,14 @@ func Verif_C02_Structures() {
 			r.OnTime(compact_time.NewTime(23, 59, 7*k, 500000000*(k%2), compact_time.TZAtLatLong(1234-1300*k, -99*k)))
 			r.OnTime(compact_time.NewTimestamp(1999, 12, 31, 0, 0, k, 0, compact_time.TZAtUTC()))
 			r.OnTime(compact_time.NewTime(1, 2, 3, 0, compact_time.TZWithMiutesOffsetFromUTC(-90*k)))
+			r.OnEndContainer()
+		case 10: // a chunked uint16 array whose last element arrives as 1 byte + 1 byte, followed by a sibling
+			r.OnList()
+			r.OnArrayBegin(events.ArrayTypeUint16)
+			r.OnArrayChunk(2, false)
+			r.OnArrayData([]byte{1, byte(v), 3})
+			r.OnArrayData([]byte{4})
+			r.OnPositiveInt(5)
 			r.OnEndContainer()
 		case 9:
 			r.OnMap()
